@@ -35,7 +35,7 @@ def main():
         ran.append(f"demo on clean HEAD: exit {r0.returncode}")
         a = sh(["git", "-C", dst, "apply", "-3", os.path.join(src, "patch.diff")])
         if a.returncode != 0:
-            sh(["git", "-C", dst, "checkout", "-q", "--", "."])
+            sh(["git", "-C", dst, "reset", "-q", "--hard"])
             a = sh(["patch", "-p1", "--fuzz=3", "-d", dst, "-i", os.path.join(src, "patch.diff")])
         ran.append(f"apply: rc {a.returncode}")
         if a.returncode != 0:
